@@ -269,12 +269,20 @@ def step (st : St) : List String → St × String
       let (rx, os, rest) := readPackets realPrims s.crxK s.crx s.crxBuf b
       (st.put id { s with crx := rx, crxBuf := rest }, s!"ok {hex (delivered os)} {eventsStr os} {rest.length}")
     | _, _ => (st, "bad-op")
+  | ["cli.rxs", id, chunks] =>
+    -- several successive reads in one request
+    match st.get id, unhexList? chunks with
+    | some s, some cs =>
+      if s.crx.failed then (st, "dead") else
+      let (rx, os, rest) := feedChunks realPrims s.crxK s.crx s.crxBuf cs
+      (st.put id { s with crx := rx, crxBuf := rest }, s!"ok {hex (delivered os)} {eventsStr os} {rest.length}")
+    | _, _ => (st, "bad-op")
   | ["cli.write", id, data, wire] =>
     match st.get id, unhex? data, unhex? wire with
     | some s, some d, some w =>
+      -- cheap length filter first
+      let burst := (splitPayload (d.length + 1) d).foldl (fun a c => a + pktOverhead + c.length) 0
       let cands := (List.range' minLenDistLength (maxLenDistLength + 1 - minLenDistLength)).filter (fun smp =>
-        -- cheap length filter first
-        let burst := (splitPayload (d.length + 1) d).foldl (fun a c => a + pktOverhead + c.length) 0
         let pads := padBurstLens burst smp
         pads.all (· ≥ 0) ∧ burst + (pads.foldl (fun a p => a + pktOverhead + p.toNat) 0) = w.length)
       let hit := cands.findSome? (fun smp =>
